@@ -378,6 +378,9 @@ def identical(cx, a, b, st):
             return z3.BoolVal(False)   # each attribute access creates a new bound method object
     if isinstance(a, VBool) and isinstance(b, VBool):
         return a.t == b.t
+    if isinstance(a, VExcClass) or isinstance(b, VExcClass):
+        # a class object is identical only to itself; an opaque value handed in by the caller is not a class named here
+        return z3.BoolVal(isinstance(a, VExcClass) and isinstance(b, VExcClass) and a.name == b.name)
     raise Unsupported("identity of %r and %r" % (a, b))
 
 
@@ -1159,13 +1162,13 @@ class Interp:
                 node = getattr(fv, "node", None)
                 if (None, fv.name) in cx.inline and node is not None:
                     return self.inline_call(node, None, list(args), kwargs, st, k, {})
-                if c is not None and not cx.is_target(None, fv.name):
-                    return c.summary(self, None, args, kwargs, st, k)
                 h = getattr(cx, "repo_call_hook", None)
                 if h is not None:
                     r = h(self, fv, args, kwargs, st, k)
                     if r is not None:
                         return r
+                if c is not None and not cx.is_target(None, fv.name):
+                    return c.summary(self, None, args, kwargs, st, k)
                 raise Unsupported("call of repo function %s without contract" % fv.name)
         if isinstance(fv, VExcClass):
             return k(VExc(cname=fv.name, args=tuple(args)), st)
